@@ -322,6 +322,21 @@ def Tup(*ts):
     return ("Tuple",) + tuple(ts)
 
 
+def Uni(a, b):
+    """a parameter annotated `Union[A, B]`: a Lean sum"""
+    return ("Union", a, b)
+
+
+def Gen(t):
+    """what a generator call gives: the items it yields and the exception, if any, that ends it"""
+    return ("Gen", t)
+
+
+def Fn(ret, *args):
+    """a library function that is not translated: a parameter of the Lean function"""
+    return ("Fn", ret) + tuple(args)
+
+
 ITER = ("Iter",)  # an iterator parameter; its items are (Nat, Str) pairs
 ITER_ITEM = Tup(NAT, STR)
 
@@ -362,6 +377,12 @@ def render(t):
         return "(" + " × ".join(render(x) for x in t[1:]) + ")"
     if t[0] == "Iter":
         return "ι"
+    if t[0] == "Union":
+        return "(%s ⊕ %s)" % (render(t[1]), render(t[2]))
+    if t[0] == "Gen":
+        return "((List %s) × (Option PyExc))" % render(t[1])
+    if t[0] == "Fn":
+        return "(" + " → ".join([render(x) for x in t[2:]] + [render(t[1])]) + ")"
     raise Unsupported("type %r" % (t,))
 
 
@@ -432,15 +453,19 @@ SPECS = [
     dict(name="_read_index_from_selfies", lean="read_index_from_selfies",
          file="selfies/decoder.py", group="ReadIndexFns",
          params=[("symbol_iter", ITER), ("n_symbols", INT)]),
+    dict(name="encoding_to_selfies", file="selfies/utils/encoding_utils.py", group="EncodingFns",
+         params=[("encoding", Uni(Lst(INT), Lst(Lst(INT)))), ("vocab_itos", Dct(INT, STR)), ("enc_type", STR)]),
 ]
 MODULE_OF_FILE = {"selfies/grammar_rules.py": "selfies.grammar_rules",
                   "selfies/bond_constraints.py": "selfies.bond_constraints",
                   "selfies/mol_graph.py": "selfies.mol_graph",
-                  "selfies/decoder.py": "selfies.decoder"}
+                  "selfies/decoder.py": "selfies.decoder",
+                  "selfies/utils/encoding_utils.py": "selfies.utils.encoding_utils"}
 GROUPS = {
     "IndexFns": dict(imports=["SelfiesVerif.Generated.Tables"], fallbacks="translatorFallbacksIndex"),
     "CapacityFns": dict(imports=[], fallbacks="translatorFallbacksCapacity"),
     "ReadIndexFns": dict(imports=["SelfiesVerif.Generated.IndexFns"], fallbacks="translatorFallbacksReadIndex"),
+    "EncodingFns": dict(imports=[], fallbacks="translatorFallbacksEncoding"),
 }
 LEAN_RESERVED = set("""
 at by do else end export extends for from fun have if import in instance let match mut namespace notation
@@ -523,7 +548,7 @@ def type_rank(t):
     t = norm(t)
     if isinstance(t, str):
         return TYPE_RANK.get(t, 4)
-    return {"Option": 5, "Tuple": 6, "List": 7, "Dict": 8, "Iter": 9}.get(t[0], 10)
+    return {"Option": 5, "Tuple": 6, "List": 7, "Dict": 8, "Iter": 9, "Union": 8}.get(t[0], 10)
 
 
 class TrX:
@@ -544,6 +569,7 @@ class TrX:
         self.iter_params = [p for p, t in spec.get("params", []) if t == ITER]
         self.tables_used = set()
         self.prefix = "t"
+        self.cur_tail = None
 
     # ---- helpers
     def tmp(self):
@@ -602,6 +628,8 @@ class TrX:
             return t
         if ty in (INT, NAT):
             return "(decide (%s ≠ 0))" % t
+        if ty == Opt(INT):
+            return "(match %s with | some py_v => (decide (py_v ≠ 0)) | none => false)" % t
         if isinstance(ty, tuple) and ty[0] == "List" or ty == STR:
             return "(!(List.isEmpty %s))" % t
         raise Unsupported("truth value of %s" % render(ty))
@@ -675,7 +703,38 @@ class TrX:
             return "(" + ", ".join(p[0] for p in parts) + ")", Tup(*[p[1] for p in parts])
         if isinstance(e, ast.JoinedStr):
             return self.fstring(e, env)
+        if isinstance(e, ast.ListComp):
+            return self.listcomp(e, env)
         raise Unsupported("expression %s" % type(e).__name__)
+
+    def listcomp(self, e, env):
+        """`[f(x) for x in xs]` (one generator, no condition) -> `List.map`, or `List.mapM` when
+        `f` can raise; `[e for v in vs for e in v]` -> `List.flatten`"""
+        gens = e.generators
+        if len(gens) == 2 and all(isinstance(g.target, ast.Name) and not g.ifs and not g.is_async for g in gens) \
+                and isinstance(gens[1].iter, ast.Name) and gens[1].iter.id == gens[0].target.id \
+                and isinstance(e.elt, ast.Name) and e.elt.id == gens[1].target.id \
+                and gens[0].target.id not in env and gens[1].target.id not in env:
+            lst, elem = self.iterable(gens[0].iter, env)
+            elem = norm(elem)
+            if isinstance(elem, tuple) and elem[0] == "List":
+                return "(List.flatten %s)" % lst, elem
+            raise Unsupported("nested comprehension over %s" % render(elem))
+        if len(gens) != 1 or gens[0].ifs or gens[0].is_async or not isinstance(gens[0].target, ast.Name):
+            raise Unsupported("comprehension form")
+        v = gens[0].target.id
+        if v in env:
+            raise Unsupported("comprehension variable shadows %s" % v)
+        lst, elem = self.iterable(gens[0].iter, env)
+        env2 = dict(env)
+        env2[v] = elem
+        pend, (t, ty) = self.isolated(lambda: self.expr(e.elt, env2))
+        if not pend:
+            return "(List.map (fun (%s : %s) => %s) %s)" % (v, render(elem), t, lst), Lst(ty)
+        binds = "".join("let %s ← %s; " % (p[1], p[2]) if p[0] == "bind"
+                        else "let %s : %s := %s; " % (p[1], render(p[3]), p[2]) for p in pend)
+        text = "List.mapM (m := Py) (fun (%s : %s) => do %sExcept.ok %s) %s" % (v, render(elem), binds, t, lst)
+        return self.effect(text, Lst(ty)), Lst(ty)
 
     def binop(self, op, left, right, env):
         a, ta = self.expr(left, env)
@@ -742,7 +801,12 @@ class TrX:
                 else:
                     parts.append("false" if isinstance(op, ast.Is) else "true")
             elif isinstance(op, (ast.In, ast.NotIn)):
-                if isinstance(tb, tuple) and tb[0] == "Dict":
+                if isinstance(right, (ast.Tuple, ast.List)) and right.elts and ta in (STR, INT) and all(
+                        isinstance(y, ast.Constant) and type(y.value) is (str if ta == STR else int)
+                        for y in right.elts):
+                    # `x in ("a", "b")`: membership in a literal tuple / list of constants
+                    t = "(List.elem %s [%s])" % (a, ", ".join(self.expr(y, env)[0] for y in right.elts))
+                elif isinstance(tb, tuple) and tb[0] == "Dict":
                     t = "(PyRt.dictHas %s %s)" % (b, self.as_key(a, ta))
                 elif isinstance(tb, tuple) and tb[0] == "List" and norm(tb[1]) == ta and ta in (STR, INT):
                     t = "(List.elem %s %s)" % (a, b)
@@ -969,6 +1033,17 @@ class TrX:
                 r = self.effect("py_next %s" % it, Tup(ITER_ITEM, ITER))
                 self.pending.append(("let", it, "%s.2" % r, ITER))
                 return "%s.1" % r, ITER_ITEM
+            if f.id == "list" and len(e.args) == 1 and isinstance(e.args[0], ast.Call) and not e.args[0].args \
+                    and not e.args[0].keywords and isinstance(e.args[0].func, ast.Attribute) \
+                    and e.args[0].func.attr in ("values", "keys"):
+                # `list(d.values())` / `list(d.keys())`: insertion order
+                d, td = self.expr(e.args[0].func.value, env)
+                td = norm(td)
+                if isinstance(td, tuple) and td[0] == "Dict":
+                    which = e.args[0].func.attr
+                    return "(List.map %s %s)" % ("Prod.snd" if which == "values" else "Prod.fst", d), \
+                        Lst(td[2] if which == "values" else td[1])
+                raise Unsupported("%s of %s" % (e.args[0].func.attr, render(td)))
             if f.id in self.registry:
                 return self.call_translated(f.id, e, env)
             raise Unsupported("call of %s" % f.id)
@@ -977,6 +1052,20 @@ class TrX:
                 if any(isinstance(a, ast.Starred) for a in e.args):
                     raise Unsupported("format(*args)")
                 return self.concat(self.format_pieces(f.value.value, e.args, env))
+            if isinstance(f.value, ast.Constant) and f.value.value == "" and f.attr == "join" and len(e.args) == 1:
+                t, ty = self.expr(e.args[0], env)
+                if norm(ty) == Lst(STR):
+                    return "(List.flatten %s)" % t, STR
+                raise Unsupported("join of %s" % render(ty))
+            if f.attr == "index" and len(e.args) == 1:
+                v, tv = self.expr(f.value, env)
+                tv = norm(tv)
+                a, ta = self.expr(e.args[0], env)
+                if tv == Lst(INT):
+                    return self.effect("PyRt.listIndexOf %s %s" % (v, self.as_int(a, ta)), INT), INT
+                if tv == Uni(INT, Lst(INT)):
+                    return self.effect("PyRt.sumIndexOf %s %s" % (v, self.as_int(a, ta)), INT), INT
+                raise Unsupported("index method of %s" % render(tv))
             if f.attr == "get" and len(e.args) in (1, 2):
                 d, td = self.expr(f.value, env)
                 td = norm(td)
@@ -1073,8 +1162,16 @@ class TrX:
             k %= n
             return proj(v, k, n), tv[1 + k]
         i, ti = self.expr(s, env)
+        if isinstance(tv, tuple) and tv[0] == "Dict" and norm(tv[1]) == INT:
+            if norm(ti) in (INT, NAT):
+                return self.effect("PyRt.dictItemI %s %s" % (v, self.as_int(i, ti)), tv[2]), tv[2]
+            if norm(ti) == Uni(INT, Lst(INT)):
+                return self.effect("PyRt.dictItemSum %s %s" % (v, i), tv[2]), tv[2]
+            raise Unsupported("dict key of type %s" % render(ti))
         if isinstance(tv, tuple) and tv[0] == "Dict":
             return self.effect("PyRt.dictItem %s %s" % (v, self.as_key(i, ti)), INT), INT
+        if isinstance(tv, tuple) and tv[0] == "List" and norm(ti) == Uni(INT, Lst(INT)):
+            return self.effect("PyRt.indexSum %s %s" % (v, i), tv[1]), tv[1]
         if isinstance(tv, tuple) and tv[0] == "List":
             return self.effect("PyRt.index %s %s" % (v, self.as_int(i, ti)), tv[1]), tv[1]
         raise Unsupported("subscript of %s" % render(tv))
@@ -1090,8 +1187,13 @@ class TrX:
                 raise Unsupported("chained assignment")
             tg = s.targets[0]
             if isinstance(s.value, ast.Name) and isinstance(norm(env.get(s.value.id, INT)), tuple) \
-                    and norm(env[s.value.id])[0] in ("List", "Dict", "Iter"):
-                raise Unsupported("aliasing of a mutable value")
+                    and norm(env[s.value.id])[0] in ("List", "Dict", "Iter", "Union", "Gen"):
+                # `a = b` is only a copy if neither name is rebound or mutated in anything that
+                # can run afterwards (known at function level only: the rest of the path)
+                later = assigned_names(self.cur_tail) if self.cur_tail is not None else None
+                if later is None or not isinstance(tg, ast.Name) or tg.id in later or s.value.id in later \
+                        or norm(env[s.value.id])[0] == "Iter":
+                    raise Unsupported("aliasing of a mutable value")
             t, ty = self.expr(s.value, env)
             return self.store(tg, t, ty, env)
         if isinstance(s, ast.AugAssign):
@@ -1158,7 +1260,9 @@ class TrX:
             return self.block(tail, env, indent, k)
         if isinstance(s, ast.Pass):
             return self.block(tail, env, indent, k)
+        self.cur_tail = tail if k is None else None
         r = self.simple(s, env)
+        self.cur_tail = None
         if r is not None:
             lines, env2 = r
             head = self.flush(pad)
@@ -1298,6 +1402,9 @@ class TrX:
         ty = norm(ty)
         if isinstance(ty, tuple) and ty[0] == "List":
             return t, ty[1]
+        if isinstance(ty, tuple) and ty[0] == "Union" and all(
+                isinstance(norm(u), tuple) and norm(u)[0] == "List" for u in ty[1:]):
+            return "(PyRt.sumItems %s)" % t, Uni(norm(ty[1])[1], norm(ty[2])[1])
         if ty == STR:
             raise Unsupported("iteration over a str")
         raise Unsupported("iteration over %s" % render(ty))
@@ -1550,7 +1657,7 @@ class TrX:
                 raise Unsupported("decorator %s" % ast.unparse(d))
         for x in ast.walk(fn):
             if isinstance(x, (ast.Global, ast.Nonlocal, ast.Lambda, ast.FunctionDef, ast.AsyncFunctionDef,
-                              ast.ClassDef, ast.Yield, ast.YieldFrom, ast.Await, ast.ListComp, ast.SetComp,
+                              ast.ClassDef, ast.Yield, ast.YieldFrom, ast.Await, ast.SetComp,
                               ast.DictComp, ast.GeneratorExp, ast.NamedExpr, ast.Delete, ast.With,
                               ast.Import, ast.ImportFrom)) and x is not fn:
                 raise Unsupported("construct %s" % type(x).__name__)
@@ -1744,6 +1851,8 @@ FALLBACK_SIGS = {
                               "(self_h_count : (Option Int)) : Py Int", INT, []),
     "read_index_from_selfies": ("{ι : Type} (py_next : ι → Py ((Nat × Str) × ι)) (symbol_iter : ι) (n_symbols : Int) "
                                 ": Py ((Int × Int) × ι)", Tup(INT, INT), ["symbol_iter"]),
+    "encoding_to_selfies": ("(encoding : ((List Int) ⊕ (List (List Int)))) (vocab_itos : (List (Int × Str))) "
+                            "(enc_type : Str) : Py Str", STR, []),
 }
 # loop definitions that the proofs refer to by name (kept available under a fallback)
 FALLBACK_AUX = {
@@ -1756,4 +1865,5 @@ FALLBACK_ARGS = {
     "get_bonding_capacity": ["_current_constraints", "element", "charge"],
     "Atom_bonding_capacity": ["_current_constraints", "self_element", "self_charge", "self_h_count"],
     "read_index_from_selfies": ["py_next", "symbol_iter", "n_symbols"],
+    "encoding_to_selfies": ["encoding", "vocab_itos", "enc_type"],
 }
